@@ -39,6 +39,11 @@ type Check struct {
 	// Classify maps a crashed/hung case (desc from Risky, tail of the worker's output) to a
 	// signature key.
 	Classify func(desc, output string, hang bool) (key, what string)
+	// HangLimit is the time one risky case may take inside a worker before the worker stops and the
+	// parent re-runs the case alone under SingleLimit to confirm the hang (defaults 20 s / 60 s).
+	HangLimit, SingleLimit time.Duration
+	// MemLimitKB, when > 0, caps each worker's address space (ulimit -v).
+	MemLimitKB int
 	// Prepare runs once in the parent before workers are started (e.g. to build an instrumented
 	// binary); it may return extra arguments passed to every worker via Ctx.Args, and an
 	// alternative executable for the workers.
@@ -77,6 +82,17 @@ func loadFindings() (map[string]Finding, error) {
 	if err := json.Unmarshal(b, &doc); err != nil {
 		return nil, fmt.Errorf("known_findings.json: %w", err)
 	}
+	// development aid only (never set by registered commands): extra findings file
+	if extra := os.Getenv("VERIF_EXTRA_FINDINGS"); extra != "" {
+		if eb, err := os.ReadFile(extra); err == nil {
+			var edoc struct {
+				Findings []Finding `json:"findings"`
+			}
+			if json.Unmarshal(eb, &edoc) == nil {
+				doc.Findings = append(doc.Findings, edoc.Findings...)
+			}
+		}
+	}
 	for _, f := range doc.Findings {
 		if strings.HasPrefix(f.Status, "fixed") {
 			continue
@@ -98,6 +114,7 @@ func Main() {
 	replay := fs.String("replay", "", "replay artefact to re-execute")
 	single := fs.String("single", "", "internal: run one risky case")
 	argsJSON := fs.String("args", "", "internal: extra args")
+	skipFile := fs.String("skip", "", "internal: file with risky cases to skip (JSON list)")
 	workers := fs.Int("workers", 0, "number of worker processes")
 	if len(os.Args) < 2 {
 		fmt.Fprintln(os.Stderr, "usage: vcheck <id> [--tier quick|thorough] [--replay file]")
@@ -167,6 +184,21 @@ func Main() {
 				c.progress = f
 			}
 		}
+		if *skipFile != "" {
+			var list []string
+			if b, err := os.ReadFile(*skipFile); err == nil {
+				json.Unmarshal(b, &list)
+			}
+			c.skip = map[string]bool{}
+			for _, d := range list {
+				c.skip[d] = true
+			}
+		}
+		hl := ch.HangLimit
+		if hl == 0 {
+			hl = 20 * time.Second
+		}
+		go c.watchdog(hl)
 		ch.Run(c)
 		b, _ := json.Marshal(c.res)
 		if err := os.WriteFile(*out, b, 0o644); err != nil {
@@ -179,11 +211,104 @@ func Main() {
 	os.Exit(runParent(ch, *tier, seed, *workers))
 }
 
+type badCase struct {
+	desc   string
+	output string
+	hang   bool
+}
+
 type workerOutcome struct {
-	res      *Result
-	crashed  bool
-	output   string
-	progress string
+	res     *Result
+	crashed bool // failed and not attributable to a case
+	output  string
+	bad     []badCase // cases that crashed or hung the worker (confirmed alone)
+	slow    int       // cases that tripped the watchdog but completed when run alone
+}
+
+// runShard runs one shard in a worker subprocess; when a risky case crashes or hangs the worker, the
+// case is confirmed by re-running it alone, recorded, and the shard is restarted without it.
+func runShard(ch *Check, exe, tier string, i, n int, tmp string, deadline time.Time, argsJSON string, seed int64) workerOutcome {
+	o := workerOutcome{}
+	var skip []string
+	for attempt := 0; attempt < 40; attempt++ {
+		outFile := filepath.Join(tmp, fmt.Sprintf("res-%d.json", i))
+		progFile := filepath.Join(tmp, fmt.Sprintf("prog-%d", i))
+		skipFile := filepath.Join(tmp, fmt.Sprintf("skip-%d.json", i))
+		os.Remove(outFile)
+		os.Remove(progFile)
+		sb, _ := json.Marshal(skip)
+		os.WriteFile(skipFile, sb, 0o644)
+		args := []string{ch.ID, "--worker", "--tier", tier, "--shard", fmt.Sprintf("%d/%d", i, n),
+			"--out", outFile, "--progress", progFile, "--deadline", strconv.FormatInt(deadline.Unix(), 10),
+			"--args", argsJSON, "--skip", skipFile}
+		output, err := runLimited(ch, exe, args, seed, 0)
+		b, rerr := os.ReadFile(outFile)
+		if err == nil && rerr == nil {
+			o.res = newResult()
+			if jerr := json.Unmarshal(b, o.res); jerr != nil {
+				o.crashed, o.output = true, "bad result json: "+jerr.Error()
+			}
+			return o
+		}
+		desc := readProgress(progFile)
+		if desc == "" || ch.Single == nil {
+			o.crashed, o.output = true, tail(output, 6000)
+			return o
+		}
+		// confirm by running the case alone
+		sl := ch.SingleLimit
+		if sl == 0 {
+			sl = 60 * time.Second
+		}
+		sout, serr := runLimited(ch, exe, []string{ch.ID, "--tier", tier, "--args", argsJSON, "--single", desc}, seed, sl)
+		if serr == nil {
+			if strings.Contains(output, "WATCHDOG:") {
+				o.slow++ // completed alone: slow under load, not a hang
+			} else {
+				// crashed in the batch but not alone: not reproducible in isolation
+				o.crashed, o.output = true, "case crashed the worker but not when run alone: "+desc+"\n"+tail(output, 3000)
+				return o
+			}
+		} else {
+			hang := strings.Contains(sout, "SINGLE-TIMEOUT")
+			o.bad = append(o.bad, badCase{desc: desc, output: tail(sout, 3000), hang: hang})
+		}
+		skip = append(skip, desc)
+	}
+	o.crashed, o.output = true, "too many crashing cases in one shard"
+	return o
+}
+
+// runLimited runs the driver binary with the check's memory limit and an optional time limit.
+func runLimited(ch *Check, exe string, args []string, seed int64, limit time.Duration) (string, error) {
+	var cmd *exec.Cmd
+	if ch.MemLimitKB > 0 {
+		script := fmt.Sprintf("ulimit -v %d; exec \"$0\" \"$@\"", ch.MemLimitKB)
+		cmd = exec.Command("bash", append([]string{"-c", script, exe}, args...)...)
+	} else {
+		cmd = exec.Command(exe, args...)
+	}
+	cmd.Env = append(os.Environ(), "GOMAXPROCS=2", "GOGC=400", fmt.Sprintf("VERIF_SEED=%d", seed))
+	var buf bytes.Buffer
+	cmd.Stdout = &buf
+	cmd.Stderr = &buf
+	if err := cmd.Start(); err != nil {
+		return err.Error(), err
+	}
+	done := make(chan error, 1)
+	go func() { done <- cmd.Wait() }()
+	if limit > 0 {
+		select {
+		case err := <-done:
+			return buf.String(), err
+		case <-time.After(limit):
+			cmd.Process.Kill()
+			<-done
+			return buf.String() + "\nSINGLE-TIMEOUT: the case did not return within " + limit.String(), fmt.Errorf("timeout")
+		}
+	}
+	err := <-done
+	return buf.String(), err
 }
 
 func runParent(ch *Check, tier string, seed int64, nworkers int) int {
@@ -238,30 +363,7 @@ func runParent(ch *Check, tier string, seed int64, nworkers int) int {
 		wg.Add(1)
 		go func(i int) {
 			defer wg.Done()
-			outFile := filepath.Join(tmp, fmt.Sprintf("res-%d.json", i))
-			progFile := filepath.Join(tmp, fmt.Sprintf("prog-%d", i))
-			cmd := exec.Command(exe, ch.ID, "--worker", "--tier", tier, "--shard", fmt.Sprintf("%d/%d", i, n),
-				"--out", outFile, "--progress", progFile, "--deadline", strconv.FormatInt(deadline.Unix(), 10),
-				"--args", string(argsB))
-			cmd.Env = append(os.Environ(), "GOMAXPROCS=2", "GOGC=400", fmt.Sprintf("VERIF_SEED=%d", seed))
-			var buf bytes.Buffer
-			cmd.Stdout = &buf
-			cmd.Stderr = &buf
-			err := cmd.Run()
-			o := workerOutcome{}
-			b, rerr := os.ReadFile(outFile)
-			if err != nil || rerr != nil {
-				o.crashed = true
-				o.output = tail(buf.String(), 6000)
-				o.progress = readProgress(progFile)
-			} else {
-				o.res = newResult()
-				if jerr := json.Unmarshal(b, o.res); jerr != nil {
-					o.crashed = true
-					o.output = "bad result json: " + jerr.Error()
-				}
-			}
-			outcomes[i] = o
+			outcomes[i] = runShard(ch, exe, tier, i, n, tmp, deadline, string(argsB), seed)
 		}(i)
 	}
 	wg.Wait()
@@ -269,13 +371,25 @@ func runParent(ch *Check, tier string, seed int64, nworkers int) int {
 	merged := newResult()
 	crashes := 0
 	for i, o := range outcomes {
+		for _, b := range o.bad {
+			key, what := "worker-crash:"+Hash(b.desc), "a case crashed its worker process"
+			if b.hang {
+				key, what = "worker-hang:"+Hash(b.desc), "a case did not return within the single-case limit"
+			}
+			if ch.Classify != nil && b.desc != "" {
+				key, what = ch.Classify(b.desc, b.output, b.hang)
+			}
+			if v := merged.Violations[key]; v != nil {
+				v.Count++
+			} else {
+				merged.Violations[key] = &Violation{Key: key, What: what + "\ncase: " + b.desc + "\n" + tail(b.output, 1500), Replay: map[string]any{"risky": b.desc}, Count: 1}
+			}
+		}
+		merged.Counters["slow_cases_not_confirmed_as_hangs"] += int64(o.slow)
 		if o.crashed {
 			crashes++
-			key, what := "worker-crash:"+Hash(o.progress), "worker "+strconv.Itoa(i)+" crashed"
-			if ch.Classify != nil && o.progress != "" {
-				key, what = ch.Classify(o.progress, o.output, false)
-			}
-			merged.Violations[key] = &Violation{Key: key, What: what + "\n" + o.output, Replay: map[string]any{"risky": o.progress}, Count: 1}
+			key := "worker-crash-unattributed:" + strconv.Itoa(i)
+			merged.Violations[key] = &Violation{Key: key, What: "worker " + strconv.Itoa(i) + " failed and the failure could not be attributed to a case\n" + o.output, Replay: map[string]any{}, Count: 1}
 			continue
 		}
 		mergeInto(merged, o.res)
